@@ -9,6 +9,12 @@ from vf import common, drive, parsetree, gen_exps, gen_macros, enum_exps
 from vf.pool import pmap
 
 WRAP_ALL = ["{S}", "a(); {S} b();", "if ($V == 1) {{ {S} }}", "if not ($V == 1) {{ a(); }} elseif ($W == 2) {{ b(); }} else {{ {S} }}"]
+# the statement after a CLOSED construct of every kind in the same scope (a handler that forgets to leave its loop / case context
+# would make the statement look legal)
+PRE = ["forever {{ a(); break_loop; }}", "while ($V == 1) {{ a(); }}", "while not ($V == 1) {{ a(); }}", "for ($I = 0; $I < 3; $I += 1;) {{ a(); }}",
+       "switch ($S) {{ case 1: a(); break; default: b(); }}", "switch ($S) {{ case 1: a(); break; }}", "if not ($V == 1) {{ a(); }}", "with (actor A) {{ a(); }}",
+       "~none();", "forever {{ while not ($V == 1) {{ a(); continue; }} break_loop; }}", "message_SwitchTalk ($T) {{ case 1: 'a' default: 'b' }}"]
+WRAP_ALL += [p_ + " {S}" for p_ in PRE]
 WRAP_LOOP = ["forever {{ {S} break_loop; }}", "while ($V == 1) {{ {S} }}", "while not ($V == 1) {{ a(); {S} }}", "for ($I = 0; $I < 3; $I += 1;) {{ {S} }}"]
 WRAP_CASE = ["switch ($S) {{ case 1: {S} break; default: a(); }}", "switch ($S) {{ default: {S} break; }}"]
 
@@ -42,6 +48,11 @@ def invalid_programs() -> list[dict]:
                 out.append({"src": MACROS + f"def 0 {{ a(); return; }}\ndef 1 for actor X {{ {body} }}\n", "expect": cls})
                 out.append({"src": MACROS + f"macro host($p) {{ {body} }}\ndef 0 {{ ~host(1); return; }}\n", "expect": cls})
                 out.append({"src": MACROS + f"macro unused() {{ {body} }}\ndef 0 {{ a(); return; }}\n", "expect": cls})
+            # ... and after a closed construct in the PREVIOUS routine / macro of the file
+            for p_ in PRE:
+                pre = p_.format()
+                out.append({"src": MACROS + f"def 0 {{ {pre} return; }}\ndef 1 {{ {s} return; }}\n", "expect": cls})
+                out.append({"src": MACROS + f"macro pre() {{ {pre} }}\nmacro host() {{ {s} }}\ndef 0 {{ ~pre(); ~host(); return; }}\n", "expect": cls})
     for rec in ["macro r() { ~r(); }\ndef 0 { ~r(); }", "macro a() { ~b(); }\nmacro b() { ~a(); }\ndef 0 { ~a(); }",
                 "macro a() { x(); ~b(); }\nmacro b() { ~c(); }\nmacro c() { if ($V == 1) { ~a(); } }\ndef 0 { ~c(); }",
                 "macro a() { ~a(); }\ndef 0 { x(); }", "macro b() { ~a(); }\nmacro a() { ~b(); }\ndef 0 { x(); }"]:
